@@ -52,6 +52,10 @@ func (p *ClonePool) Mark(v Value, flags MarkFlags) {
 		return
 	}
 	if !ok {
+		// The value may already have a Go finalizer, set by the pool of an
+		// enclosing context where it was marked first: setting a second one
+		// is a fatal error in Go.
+		setFinalizer(v, nil)
 		setFinalizer(v, p.goFinalizer)
 	}
 	c.value = v.Clone()
